@@ -110,6 +110,20 @@ def case_stream(ctx, pred):
         if len(batch) >= BATCH:
             yield batch
             batch = []
+    # exponents at the edges of the machine integer ranges (the helpers do int arithmetic on exponents),
+    # crossed with every short mantissa shape of the exhaustive set
+    edges = []
+    for base in (2 ** 63, 2 ** 31, 2 ** 15, 10 ** 9):
+        for k in (-2, -1, 0, 1, 2):
+            edges += ['e%d' % (base + k), 'e-%d' % (base + k)]
+    mants = [lex for lex, st in lexs if st in DECIMAL and len(lex) <= (3 if quick else 4)]
+    for lex in mants:
+        for ex in edges:
+            both(list(lex) + list(ex.encode()), 8, [0, ctx.rnd.choice([1, 2, 3]), ctx.rnd.choice(precs_all)])
+        if len(batch) >= BATCH:
+            yield batch
+            batch = []
+    ctx.coverage['edge_exponent_lexemes'] = len(mants) * len(edges)
     for b in sorted(repo_inputs()):
         for p in precs_all:
             if NUM_RE.match(b):
